@@ -1,4 +1,4 @@
-    // ---- record-level contract of the log (assumed in unit `wal`, proved in unit `wal_bytes`) ----
+    // ---- record-level contract of the log (assumed in unit `wal`; unit `wal_bytes` proves the Ok clauses byte-level) ----
     // a failed or torn append is discarded by repair() on the next open, so at record level it
     // leaves the log unchanged
     #[verifier::external_body]
